@@ -150,10 +150,17 @@ func (te *TimerEntry) run(ctx context.Context) error {
 		// the id before emitting, and remove only this entry
 		// (not one made under the same id in the meantime).
 		te.timers.Lock()
-		if cur, have := te.timers.Map[te.Id]; have && cur == te {
+		cur, have := te.timers.Map[te.Id]
+		mine := have && cur == te
+		if mine {
 			delete(te.timers.Map, te.Id)
 		}
 		te.timers.Unlock()
+		if !mine {
+			// Cancelled or replaced between the expiry and
+			// here: such a timer never fires.
+			return nil
+		}
 		te.timers.Emitter(ctx, te)
 		te.timers.c.Lock()
 		te.timers.changed()
